@@ -615,6 +615,10 @@ class err_gs(err_node):
         """
         Params:     visitor - ref to visitor class
         """
+        if self.ack_code is not None:
+            # errors can still be attached after the GE was seen: the code written
+            # is that of the errors recorded by now
+            self.ack_code = self._get_ack_code()
         visitor.visit_gs_pre(self)
         for child in self.children:
             child.accept(visitor)
@@ -760,6 +764,10 @@ class err_st(err_node):
         """
         Params:     visitor - ref to visitor class
         """
+        if self.ack_code is not None:
+            # errors can still be attached after the SE was seen (a surplus SE, GE or IEA
+            # is noted under the last set): the code written is that of the errors recorded by now
+            self.ack_code = 'R' if self.err_count() > 0 else 'A'
         visitor.visit_st_pre(self)
         for child in self.children:
             child.accept(visitor)
